@@ -488,8 +488,11 @@ def main(argv=None):
         "verdict": "violated" if new_mech else ("inconclusive" if inconclusive else "held-on-observed"),
     }
     if evaluations >= 1 and distinct >= 2:
-        os.makedirs(os.path.join(VERIF, "evidence"), exist_ok=True)
-        with open(os.path.join(VERIF, "evidence", prop + ".json"), "w") as f:
+        # (runs against scratch copies of the repository - seeded changes, mutants, reverted fixes - keep their evidence
+        # apart: evidence/ describes runs against /repo only)
+        evdir = os.path.join(VERIF, "evidence") if os.path.realpath(REPO) == os.path.realpath(os.environ.get("VERIF_CANONICAL_REPO", "/repo")) else os.path.join(VERIF, "out", "evidence-of-scratch-runs")
+        os.makedirs(evdir, exist_ok=True)
+        with open(os.path.join(evdir, prop + ".json"), "w") as f:
             json.dump(ev, f, ensure_ascii=True, indent=1, default=repr)
     for ln in lines_out:
         print(ln)
